@@ -46,6 +46,13 @@ def gen(rng, count):
         if mode in ("zero", "ampl"):
             ops = ["s"] + ops
         cid = "d%d" % k
+        if k == 2:
+            # one long history of a pure phase modulation: more steps than any block size one might precompute the queue in
+            n, nb, lin, mode, steps = 8, 1, True, "mod", 66000
+            ps, as_, ma, mt = 0.0, 0.0, f32(0.05), f32(0.000731)
+            e = box + [angle, f32(4.5e8), f32(9e6 / (8e3 * sps)), f32(1e6), f32(4.5e4), ps, as_, ma, mt]
+            data = C.data_family(rng, n, nb, "gauss", 2)
+            ops = ["A65530", "a", "a", "a", "a", "a", "a", "a", "a", "f"]
         recs.append(dict(id=cid, n=n, nb=nb, lin=lin, steps=steps, mode=mode, ops=ops, modampl=ma, modtime=mt,
                          optext="dynrf %s %d %d %d %s %d\nextra %s\ndata %s\nops %s\nrun\n" % (
                              cid, n, it, nb, "lin" if lin else "sin", steps, " ".join(f2h(x) for x in e),
@@ -78,7 +85,7 @@ def oracle(rec, A):
         if o == "f":
             v = d.get("vals", [])
             flushed += [(v[i], v[i + 1]) for i in range(0, len(v), 2)]
-    na = sum(1 for o in rec["ops"] if o == "a")
+    na = sum(1 if o == "a" else (int(o[1:]) if o.startswith("A") else 0) for o in rec["ops"])
     if len(flushed) != na:
         return "%d kicks applied but %d (phase, amplitude) records handed out over all flushes" % (na, len(flushed))
     if rec["mode"] == "zero":
@@ -127,7 +134,9 @@ def oracle(rec, A):
         p0 = h2f(flushed[0][0])
         for i, (ph, am) in enumerate(flushed):
             want = rec["modampl"] * math.sin(2 * math.pi * rec["modtime"] * i)
-            if abs((h2f(ph) - p0) - want) > 1e-5 * max(1e-3, abs(rec["modampl"])) + 4e-7 * abs(p0):
+            # the code evaluates sin(float(2*pi*f*dt) * i) in binary32: the argument carries a relative error of 2^-23
+            arg_err = abs(rec["modampl"]) * 2 * math.pi * rec["modtime"] * i * 2.4e-7
+            if abs((h2f(ph) - p0) - want) > 1e-5 * max(1e-3, abs(rec["modampl"])) + 4e-7 * abs(p0) + arg_err:
                 return "phase modulation entry %d is %g, configured amplitude/frequency give %g" % (i, h2f(ph) - p0, want)
             if h2f(am) != 1.0:
                 return "pure phase modulation recorded amplitude %r" % h2f(am)
